@@ -49,6 +49,9 @@ func init() {
 		Trusted:     []string{"golang.org/x/tools go/packages+go/ssa (v0.29.0)", "semantics of nacl/box, curve25519.X25519 (errors on low-order input), libp2p crypto.PubKey.Verify", "go/types"},
 		Assumptions: []string{"dependencies behave as documented; only module code is analysed", "data flow through struct fields is approximated per (struct type, field) over the functions reachable from one entry point"},
 		Floors:      map[string]int{"D1": 4, "D2": 1, "D3": 2, "D4": 2, "D5": 2, "D6": 5},
+		Borrows: []Borrow{
+			{From: "C18", Rules: []string{"D3", "D4"}, Why: "every handshake step is one varint-delimited frame (pkg/protoio/varint.go is an anchor of this property): a frame whose body is read with a single Read decodes stale bytes of the previous frame, so a truncated acknowledge is taken for Success=true and honest parties on a fragmenting stream fail to complete"},
+		},
 		Run:         runC06,
 	})
 }
